@@ -20,9 +20,13 @@ LINES = [A1, "\n", "   \n", H1, "TER    4441      LEU B 323\n", "END\n", "JUNKY 
          "MODEL        1\n", "ENDMDL\n", "REMARK   1 something\n", "\r\n", "JUNKY again\n",
          "ATOM      2  CA  MET A   1     -29.370  38.833 -19.030\n",
          # a coordinate record that cannot be parsed must stop the run (C12), never be skipped or silence later ones
-         "ATOM      3  C   MET A   x     -29.894  37.900 -17.936  1.00 78.08           C  \n"]
+         "ATOM      3  C   MET A   x     -29.894  37.900 -17.936  1.00 78.08           C  \n",
+         # past serial 9999 and residue 999 the columns touch: the record name is columns 1-6, not the first word
+         "HETATM10001  O   HOH A1331     -16.229  20.433  -9.735  1.00 21.40           O  \n",
+         "ATOM  10002  N   MET A1332     -29.703  40.250 -18.688  1.00 83.65           N  \n",
+         "TER   10003      MET A1332\n", "ANISOU10001  O   HOH A1331     2406   1892   1614    198    519   -328       O  \n"]
 #        does the line bear a record?  (blank lines and lines of an unknown type do not)
-BEARS = [1, 0, 0, 1, 1, 1, 0, 1, 1, 1, 0, 0, 1, 0]
+BEARS = [1, 0, 0, 1, 1, 1, 0, 1, 1, 1, 0, 0, 1, 0, 1, 1, 1, 1]
 
 
 class GhostFile:
